@@ -74,6 +74,12 @@ def s_fcprod(p, seed=0):
 def s_qpoints(p, seed=0):
     ph = base(p, seed)
     qs = qlist(p.get("nq", 5), seed)
+    if p.get("qlayout") == "fortran":
+        qs = np.asfortranarray(np.array(qs, dtype="double"))
+    elif p.get("qlayout") == "strided":
+        wide = np.zeros((len(qs), 7))
+        wide[:, 1:4] = np.array(qs)
+        qs = wide[:, 1:4]
     ph.run_qpoints(qs, with_eigenvectors=True, with_dynamical_matrices=True, with_group_velocities=p.get("gv", False),
                    nac_q_direction=p.get("qdir"))
     d = ph.get_qpoints_dict()
@@ -93,7 +99,18 @@ def s_d2f(p, seed=0):
     d2f = DynmatToForceConstants(ph.primitive, ph.supercell, is_full_fc=not p.get("compact", False), use_openmp=p.get("omp", True))
     comm = d2f.commensurate_points
     ph.run_qpoints(comm, with_dynamical_matrices=True)
-    d2f.dynamical_matrices = ph.get_qpoints_dict()["dynamical_matrices"]
+    if p.get("ptslayout") == "fortran":
+        # the caller supplies points and matrices itself, in Fortran order, through the constructor
+        import warnings
+
+        with warnings.catch_warnings():
+            warnings.simplefilter("ignore")
+            d2f = DynmatToForceConstants(ph.primitive, ph.supercell, dynamical_matrices=np.asfortranarray(ph.get_qpoints_dict()["dynamical_matrices"]),
+                                         commensurate_points=np.asfortranarray(np.array(comm)[::-1]), is_full_fc=not p.get("compact", False), use_openmp=p.get("omp", True))
+        ph.run_qpoints(np.array(comm)[::-1], with_dynamical_matrices=True)
+        d2f.dynamical_matrices = np.asfortranarray(ph.get_qpoints_dict()["dynamical_matrices"])
+    else:
+        d2f.dynamical_matrices = ph.get_qpoints_dict()["dynamical_matrices"]
     d2f.run(lang="C")
     return {"fc_back": np.array(d2f.force_constants), "comm": np.array(comm)}
 
@@ -207,6 +224,8 @@ def matrix(tier):
         for omp in (True, False):
             out.append(("d2f", {"xtal": "NaCl-prim-2", "S": S1, "compact": compact, "omp": omp}))
         out.append(("d2f", {"xtal": "hcp-2", "S": S2, "compact": compact}))
+        out.append(("d2f", {"xtal": "hcp-2", "S": S2, "compact": compact, "ptslayout": "fortran"}))
+        out.append(("qpoints", {"xtal": "hcp-2", "S": S2, "nac": None, "nq": 5, "compact": compact, "qlayout": "fortran" if compact else "strided", "gv": True}))
         out.append(("d2f", {"xtal": "tri-P1-3", "S": [[3, 0, 0], [0, 1, 0], [0, 0, 1]], "compact": compact}))
     out.append(("gonze", {"xtal": "NaCl-prim-2", "S": S1}))
     out.append(("gonze", {"xtal": "tri-P1-3", "S": S1, "compact": True}))
